@@ -33,6 +33,10 @@ var vfRegOnce sync.Once
 // vfRegisterBlocks registers the routing algorithms' block types once per process, so that
 // the behaviour of a case does not depend on which algorithm ran before it.
 func vfRegisterBlocks() {
+	if os.Getenv("VERIF_FRESH_NODE") != "" {
+		// the child of the fresh-process units: only what dtn7 registers itself is registered
+		return
+	}
 	vfRegOnce.Do(func() {
 		m := bpv7.GetExtensionBlockManager()
 		_ = m.Register(bpv7.NewBinarySprayBlock(0))
